@@ -526,6 +526,7 @@ func report(w *World, obs []*Obligation, reports []*funcReport, toolErrors, trus
 	}
 	// report violations
 	violations := 0
+	notAttempted := 0
 	knownHit := map[string]bool{}
 	exit := 0
 	reported := map[string]bool{}
@@ -546,6 +547,10 @@ func report(w *World, obs []*Obligation, reports []*funcReport, toolErrors, trus
 			} else {
 				discharged++
 			}
+			continue
+		}
+		if ob.Solver == "not attempted" && strings.HasPrefix(ob.Output, "more than") {
+			notAttempted++
 			continue
 		}
 		if k, ok := known[ob.Name]; ok {
@@ -661,6 +666,9 @@ func report(w *World, obs []*Obligation, reports []*funcReport, toolErrors, trus
 			fmt.Fprintln(os.Stderr, "cannot write evidence:", err)
 			return 2
 		}
+	}
+	if notAttempted > 0 {
+		fmt.Printf("govc: %d obligations not attempted after 12 distinct obligations had failed\n", notAttempted)
 	}
 	fmt.Printf("govc: property=%s tier=%s functions=%d obligations=%d discharged=%d bounded=%d/%d failing=%d solver=%.1fs wall=%.1fs\n",
 		rc.prop, rc.tier, len(reports), total, discharged, boundedOK, bounded, violations, solverTime, time.Since(rc.t0).Seconds())
